@@ -13,8 +13,8 @@ from mc import isa, kernel
 PROP = 'C13'
 
 INDENTS = ['', '  ', '\t', '        ']
-COMMENTS = ['', ' # c', '# c', '  # addi x1, x1, 1 (not code)', ' #']
-FRONTS = ['', '\n', '# comment\n', '   \n\t# c\n\n']
+COMMENTS = ['', ' # c', '# c', '  # addi x1, x1, 1 (not code)', ' #', '  # next element:', " # K = 5, 'x' (y) %hi"]      # comment texts that look like a label / constant / operands
+FRONTS = ['', '\n', '# comment\n', '   \n\t# c\n\n', '# Tables:\n  # string x\n']
 SEPS = [', ', ' ', ',', ' , ', '\t', ',\t', '  ']
 
 # operand: ('r', n) register, ('i', v) integer, ('t', text) fixed text
